@@ -298,7 +298,7 @@ class C16(CheckBase):
                     faults[str(i)] = {
                         "kind": "interrupt", "mode": mode,
                         "nth": 1 + ch.choose(
-                            25 if mode == "access" else
+                            25 if mode in ("access", "creturn") else
                             ch.pick([12, 60, 250])),
                         "exc": ch.pick(["KeyboardInterrupt", "MemoryError",
                                         "SystemExit", "KeyboardInterrupt"])}
@@ -881,7 +881,8 @@ class C16(CheckBase):
                 it_ = self.trace.Interrupt(
                     f["nth"], getattr(builtins, f["exc"]),
                     distinct=f.get("mode") == "distinct",
-                    access=f.get("mode") == "access")
+                    access=f.get("mode") == "access",
+                    creturn=f.get("mode") == "creturn")
                 it_.name = f["exc"]
                 intr["it"] = it_
             else:
